@@ -646,13 +646,19 @@ static Type *array_dimensions(Token **rest, Token *tok, Type *ty) {
     return array_of(ty, -1);
   }
 
+  Token *start = tok;
   Node *expr = conditional(&tok, tok);
   tok = skip(tok, "]");
   ty = type_suffix(rest, tok, ty);
 
   if (ty->kind == TY_VLA || !is_const_expr(expr))
     return vla_of(ty, expr);
-  return array_of(ty, eval(expr));
+
+  // Sizes are kept in "int"s, so a larger array cannot be represented.
+  int64_t len = eval(expr);
+  if (len > INT32_MAX / MAX(ty->size, 1))
+    error_tok(start, "array too large");
+  return array_of(ty, len);
 }
 
 // type-suffix = "(" func-params
